@@ -13,9 +13,10 @@ From Adb Require Import Base Generated.
 (* ------------------------------------------------------------------ ordered views *)
 Section Sort.
   Context {A K : Type} (key : A -> K) (leb : K -> K -> bool).
-  (* insertion keeps earlier-inserted equal keys behind later ones; keys are map keys, hence
-     distinct, wherever this is used for a BTreeMap/BTreeSet view; for `sort_by_key` (stable) it is
-     applied to lists whose ids are distinct (C09_Model) *)
+  (* stable insertion sort (an element goes in front of the first element whose key is not
+     smaller; `isort` inserts from the right).  Keys are map keys, hence distinct, wherever this
+     is a BTreeMap/BTreeSet view; a stable sort is a function of its input, so this is also
+     Rust's `sort_by_key` (C09_Model) *)
   Fixpoint ins (x : A) (l : list A) : list A :=
     match l with
     | [] => [x]
@@ -35,6 +36,13 @@ Fixpoint str_leb (a b : str) : bool :=      (* <= on Rust Strings: bytewise lexi
 Definition sort_set (s : list str) : list str := isort (fun x => x) str_leb s.
 Definition sort_smap {V} (m : list (str * V)) : list (str * V) := isort fst str_leb m.
 Definition sort_nmap {V} (m : list (N * V)) : list (N * V) := isort fst N.leb m.
+
+(* Iterator::filter_map *)
+Fixpoint fmap {A B} (f : A -> option B) (l : list A) : list B :=
+  match l with
+  | [] => []
+  | a :: r => match f a with Some b => b :: fmap f r | None => fmap f r end
+  end.
 
 (* `map.get(k)` read as "the bin of k", absent = empty: this is all the query functions read *)
 Fixpoint getn {V} (k : N) (m : list (N * list V)) : list V :=
